@@ -83,6 +83,7 @@ func (c *appendCombineChecker) matchAppend(stmt ast.Stmt, slice ast.Expr) *ast.C
 	{
 		cond := ok &&
 			isBuiltinFunc(c.ctx, call.Fun, "append") &&
+			len(call.Args) != 0 && // append() in a package that does not type-check
 			call.Ellipsis == token.NoPos &&
 			astequal.Expr(assign.Lhs[0], call.Args[0])
 		if !cond {
